@@ -39,6 +39,8 @@ func allReads(s *c06State, host, path, pattern string) {
 		r.Has(m, pattern)
 		r.Route(m, pattern)
 	}
+	// the server-wide OPTIONS target
+	s.p.serve(&http.Request{Method: "OPTIONS", Host: host, URL: &url.URL{Path: "*"}})
 	_ = r.Len()
 	_ = r.Stats()
 	it := r.Iter()
